@@ -543,6 +543,8 @@ func runC16(p *core.Prog, r *core.Report) {
 	c16R2(p, r, fn)
 	c16R3R4(p, r)
 	c16R5(p, r)
+	// a platform-specific result is cached under a key that distinguishes everything the selection reads (shared with C18.R7)
+	lossyKeyRule(p, r, "C16.R6")
 }
 
 // c16R5: the platform that is asked for is the platform that is selected for. A string parsed into a
